@@ -24,7 +24,7 @@ CHECKS = {
           "DESIGN.md §2 C05"),
   "C06": ("exploration",
           "property-based testing (proptest): grammar-based attacker streams against engines configured with PLAIN/CURVE/NOISE_XX, judged by a reference automaton of legitimate completions; positive controls; raw attacker peers against real sockets with a sentinel from an honest peer",
-          "Generated search: tens of thousands of attacker streams per run (45% reaching the configured mechanism's own token parser, 30% ZMTP/2.0 greetings) x random segmentation; the oracle is 'no HandshakeComplete and no DeliverMessage, ever' except for the streams the reference automaton calls legitimate; stack-level spot checks on tcp/ipc in both roles.",
+          "Generated search: tens of thousands of attacker streams per run (45% reaching the configured mechanism's own token parser, PLAIN listeners with complete and incomplete credentials offered wrong, partial and empty ones, 30% ZMTP/2.0 greetings) x random segmentation; the oracle is 'no HandshakeComplete and no DeliverMessage, ever' except for the streams the reference automaton calls legitimate; stack-level spot checks on tcp/ipc in both roles.",
           "The attacker performs no real CURVE/Noise cryptography and never has the configured password; a PLAIN client has no secret to verify (WELCOME+READY is legitimate). Panics are C07's subject and only counted here.",
           "DESIGN.md §2 C06"),
   "C07": ("fault_enumeration",
@@ -33,7 +33,7 @@ CHECKS = {
           "CURVE/NOISE deep states are reached only through the live man-in-the-middle (no real attacker cryptography); buffer bound observed on the engine's accumulator; stack timings allow 2 s slack (session minimum lifespan is 1 s); MAXMSGSIZE below the handshake's own frame sizes is skipped (rzmq applies the limit to command frames, so no handshake completes).",
           "DESIGN.md §2 C07"),
   "C18": ("fault_enumeration",
-          "property-based testing (proptest) over CURVE/NOISE_XX engine pairs: generated message/batch/heartbeat sequences with embedded markers (round-trip + secrecy oracle), record-level tampering by a man in the middle (flip, truncate, drop, duplicate, swap, replay, inject) with a prefix oracle, twin sessions for ciphertext repetition",
+          "property-based testing (proptest) over CURVE/NOISE_XX engine pairs: generated message/batch/heartbeat sequences with embedded markers (round-trip + secrecy oracle), record-level tampering by a man in the middle (flip, truncate, drop, duplicate, swap, replay, inject, reflection of the receiver's own record) with a prefix oracle, equal plaintexts in both directions of one session, twin sessions for ciphertext repetition",
           "Generated search with injected faults: every case runs untouched (everything the sender accepted must be delivered, nothing in clear on the wire, sizes around the 64 KiB record limit) and tampered (the receiver may only deliver an intact prefix and must close).",
           "Sans-IO engine level; the tamperer has no keys; known findings: heartbeats bypass the record layer, CURVE session keys/nonces repeat across sessions.",
           "DESIGN.md §2 C18"),
@@ -58,18 +58,18 @@ CHECKS = {
           "The OS schedule is sampled, not owned; options set before bind/connect; ROUTER sends only after the peer identity is known; REQ single-frame.",
           "DESIGN.md §2 C01"),
   "C08": ("exploration",
-          "schedule fuzzing of the real ReadyPipeQueue with a deterministic thread scheduler (one OS thread per logical task, yields at cfg-gated schedule points between each channel write / counter update / dequeue / re-arm and on every Pending): bounded-exhaustive enumeration of all schedules up to k preemptions for six small scenarios + proptest-generated scenarios and random decision lists; deadlock detection + exactly-once / per-pipe FIFO / reserved>=queued oracles",
-          "Systematic: every schedule with at most k decisions (k=3 quick, 4 thorough) of six fixed scenarios is executed on the real code, plus thousands of sampled (scenario, schedule) pairs; 'no runnable task while work is outstanding' is a detected lost wake-up.",
+          "schedule fuzzing of the real ReadyPipeQueue with a deterministic thread scheduler (one OS thread per logical task, yields at cfg-gated schedule points between each channel write / counter update / dequeue / re-arm and on every Pending): bounded-exhaustive enumeration of all schedules up to k preemptions for eight small scenarios (among them pipes deregistered with a backlog) + proptest-generated scenarios and random decision lists; deadlock detection + exactly-once / per-pipe FIFO / reserved>=queued oracles",
+          "Systematic: every schedule with at most k decisions (k=3 quick, 4 thorough) of eight fixed scenarios is executed on the real code, plus thousands of sampled (scenario, schedule) pairs; 'no runnable task while work is outstanding' is a detected lost wake-up.",
           "Each fibre channel operation and each atomic is one step (no exploration inside the channel or of memory ordering); per-pipe FIFO only judged with one consumer.",
           "DESIGN.md §2 C08"),
   "C13": ("exploration",
-          "model-based property testing (proptest) of the real OutgoingMessageOrchestrator with scripted connections (add/remove/set_room/send histories; exactly-one, ready-only, never-refuse-while-ready, exact round-robin on stable windows, bounded pass-over); bounded-exhaustive schedule enumeration of the wait-for-first-peer window with the deterministic scheduler; PUSH with one never-reading PULL end to end",
+          "model-based property testing (proptest) of the real OutgoingMessageOrchestrator with scripted connections (add/remove/set_room/send histories; exactly-one, ready-only, never-refuse-while-ready, exact round-robin on stable windows, bounded pass-over); bounded-exhaustive schedule enumeration of the wait-for-first-peer window (1, 2 and 3 waiting senders) with the deterministic scheduler; PUSH with one never-reading PULL end to end",
           "Generated histories (15 000 per run) against consequences of round-robin rather than the cursor value; the check-then-wait window is enumerated exhaustively up to the preemption bound; a few end-to-end stalled-peer runs.",
           "Single-threaded histories at L1; known finding: the send blocks on one full peer while others drain.",
           "DESIGN.md §2 C13"),
   "C14": ("exploration",
           "property-based testing (proptest) of flood-then-drain scenarios: empty-queue recv and full-queue send judged against RCVTIMEO/SNDTIMEO (exact under tokio's paused clock on inproc, with slack on tcp/ipc), accepted-count against a stated HWM bound, and accounting payloads behind a sentinel for 'nothing accepted is lost, nothing refused is delivered'; directed infinite-timeout waits (1000 virtual seconds; 32 real seconds in the thorough tier)",
-          "Generated search over four socket pairs x transports x HWM/timeout/batch options; timing is exact where the harness owns the clock (paused runtime) and bounded elsewhere.",
+          "Generated search over four socket pairs x transports x HWM/timeout/batch options x which side binds; timing is exact where the harness owns the clock (paused runtime) and bounded elsewhere.",
           "Bound on buffered messages is generous by design (3*(SNDHWM+RCVHWM) + 2*batch counts + kernel allowance + 64): the property names no constant.",
           "DESIGN.md §2 C14"),
   "C15": ("exploration",
@@ -93,12 +93,12 @@ CHECKS = {
           "Scenarios are a fixed list (send without peer, send and send_multipart under back-pressure, parked recv with arrival, recv inside a multipart message, ROUTER and DEALER frame-by-frame sends); PUB/XPUB/XSUB sends never return Pending in these scenarios and are not listed; internal (timeout) cancellation is C14's subject. After a dropped send of a later ROUTER frame the continuation is a retry of that frame, not an abandoned message.",
           "DESIGN.md §2 C09"),
   "C10": ("exploration",
-          "model-based property testing (proptest): generated call histories on REQ (scripted responder, timeouts) and REP (1..3 requesters, replies carrying the request id) judged step by step by the reference alternation automaton; forced races through a process-wide schedule-point barrier right after the state check (two tasks on a 4-thread runtime)",
+          "model-based property testing (proptest): generated call histories on REQ (scripted responder, timeouts) and REP (1..3 requesters, replies carrying the request id, idle peers leaving in mid-history) judged step by step by the reference alternation automaton; forced races through a process-wide schedule-point barrier right after the state check (two tasks on a 4-thread runtime)",
           "Generated histories (150 per socket type quick, 5000 thorough) over three transports + deterministic forced races; reply routing is decided from the payloads.",
           "A call failing for a non-state reason leaves the state unchanged (reference model); free-running multi-task histories with a linearisability search are not built - the forced races cover the check-then-act windows deterministically. Known finding: a timed-out REQ.recv resets the FSM.",
           "DESIGN.md §2 C10"),
   "C11": ("exploration",
-          "property-based testing (proptest): ROUTER with 1..5 DEALER/REQ peers whose routing ids are absent / 1 byte / 255 bytes / random / colliding, payloads with empty frames in every position and embedded sender/addressee labels; identity-frame, placeholder-stability, only-to-the-announcer, payload round-trip (both directions), unroutable and reconnect-with-same-identity oracles",
+          "property-based testing (proptest): ROUTER with 1..5 DEALER/REQ peers whose routing ids are absent / 1 byte / 255 bytes / random / colliding, payloads with empty frames in every position and embedded sender/addressee labels; identity-frame, placeholder-stability, only-to-the-announcer, payload round-trip (both directions), unroutable and reconnect-with-same-identity oracles; frame-by-frame ROUTER sends while another peer leaves or joins between two frames",
           "Generated search (80 cases quick, 2000 thorough) over transports, runtimes, ROUTER_MANDATORY and AUTO_DELIMITER; every judgement is made from labels inside the payloads.",
           "REQ peers only with AUTO_DELIMITER on (REQ has no such switch); in manual mode only 'the payload arrives unchanged after the raw envelope' is asserted (the mode is undocumented); ROUTER-ROUTER peers not generated.",
           "DESIGN.md §2 C11"),
